@@ -205,6 +205,7 @@ pub fn blocks(thorough: bool) -> Vec<Block> {
         b.push(Block::new(u_kind_pairs(2, 2, false), vec![Cfg::new(0)], "{}"));
         b.push(Block::new(u_runs(), five.clone(), "{}, r, d+w, r+d, i"));
         b.push(Block::new(u_many(40), five.clone(), "{}, r, d+w, r+d, i"));
+        b.push(Block::new(u_prefix_suffix2(4), vec![Cfg::new(D), Cfg::new(W), Cfg::new(R), Cfg::new(D | R)], "d, w, r, d+r"));
         b.push(Block::new(u_kind_triples(), vec![Cfg::new(0), Cfg::new(R)], "{}, r"));
     } else {
         b.push(Block::new(Universe::new("U_adv(A_cons)", A_CONS, 1, 4, false), vec![Cfg::new(0), Cfg::new(I)], "{}, i"));
@@ -224,6 +225,7 @@ pub fn blocks(thorough: bool) -> Vec<Block> {
         b.push(Block::new(u_kind_pairs(3, 1, false), five.clone(), "{}, r, d+w, r+d, i"));
         b.push(Block::new(u_runs(), lattice_le(0, ALL_BITS & !(U | C | NA | NE), 2), "Lambda<=2 (anchored)"));
         b.push(Block::new(u_many(150), five.clone(), "{}, r, d+w, r+d, i"));
+        b.push(Block::new(u_prefix_suffix2(5), vec![Cfg::new(D), Cfg::new(W), Cfg::new(R), Cfg::new(D | R), Cfg::new(D | W), Cfg::new(W | R)], "d, w, r, d+r, d+w, w+r"));
         b.push(Block::new(u_kind_triples(), five.clone(), "{}, r, d+w, r+d, i"));
     }
     b
